@@ -15,7 +15,7 @@ RULE = ("(constraints) PCBO/PCSO histories of 1-3 constraints drawn from the six
         "with the model built with the numbers directly: type, coefficients, recorded constraints, num_ancillas; the "
         "symbolic original is snapshotted. (reductions) to_qubo/to_quso/to_pubo/to_puso(lam=Symbol) on degree >= 3 models. "
         "Non-trivial = the symbolic model really contains a symbol in >= 2 coefficients; distinct = digest of the history"
-        ' Also: every argument form of subs, weights of 2^40, models whose own coefficients are number + k*symbol (coincidental cancellations skipped), symbols inside the constraint polynomial with supplied bounds, no sympy object may remain once every symbol is substituted, independence of the result from the original.')
+        ' Also: every argument form of subs, weights of 2^40, models whose own coefficients are number + k*symbol (coincidental cancellations skipped), symbols inside the constraint polynomial with supplied bounds, a sympy number left after full substitution must equal (==) the numeric build's number, independence of the result from the original.')
 TIERS = {"quick": {"shards": 8, "cases": 120}, "thorough": {"shards": 16, "cases": 5000}}
 FLOOR_BASE = {"quick": 90, "thorough": 2000}    # case counts the floors below were calibrated for; the launcher scales them
 GATES = _sat.ALL + ["eq_" + g for g in _sat.ALL]
@@ -218,9 +218,9 @@ def case(ctx, rng, idx):
         ctx.violation("subs:type-changed", "subs returned %s" % type(Hn).__name__, w)
         return
     tol = 1e-9
-    left = {k: (v, type(v).__name__) for k, v in Hn.items() if isinstance(v, sympy.Basic)}
+    left = {k: (v, type(v).__name__, Hc.get(k)) for k, v in Hn.items() if isinstance(v, sympy.Basic) and not v.free_symbols and exact and not (v == Hc.get(k, 0))}
     if left:
-        ctx.violation("subs:sympy-objects-left", "every symbol was substituted by a number, yet coefficients are still sympy objects: %r" % (dict(list(left.items())[:3]),), w)
+        ctx.violation("subs:coefficient-not-equal-to-the-number", "every symbol was substituted, yet coefficients are sympy objects that do not compare equal (==) to the numbers of the numeric build: %r" % (dict(list(left.items())[:3]),), w)
         return
     a, b = numeric_terms(Hn, tol), numeric_terms(Hc, tol)
     if a is None:
@@ -346,9 +346,9 @@ def reduction_case(ctx, rng):
     if type(Dn) is not type(Dc):
         ctx.violation("subs:type-changed:reduced-form", "subs returned %s, numeric build %s" % (type(Dn).__name__, type(Dc).__name__), w)
         return
-    left = {k: (v, type(v).__name__) for k, v in Dn.items() if isinstance(v, sympy.Basic)}
+    left = {k: (v, type(v).__name__, Dc.get(k)) for k, v in Dn.items() if isinstance(v, sympy.Basic) and not v.free_symbols and exact and not (v == Dc.get(k, 0))}
     if left:
-        ctx.violation("subs:sympy-objects-left:reduced-form", "the symbol was substituted by the number %r, yet coefficients are still sympy objects: %r" % (c, dict(list(left.items())[:3])), w)
+        ctx.violation("subs:coefficient-not-equal-to-the-number:reduced-form", "the symbol was substituted by the number %r, yet coefficients are sympy objects that do not compare equal (==) to the numbers of the numeric build: %r" % (c, dict(list(left.items())[:3])), w)
         return
     a, b = numeric_terms(Dn, 1e-9), numeric_terms(Dc, 1e-9)
     if a is None:
